@@ -19,7 +19,7 @@ func init() { labs["kern"] = labKern }
 
 // The kern lab runs INSIDE the client network namespace of a chain built by tools/netlab.py: real raw sockets,
 // real AF_PACKET capture, replies produced by the kernel's own IP/ICMP/TCP stack.
-//   input (17 n proto method port first last silent port_state)  impl (status notsup (hop...) )   hop = (ttl #ip dest rtt_negative)
+//   input (17 n proto method port first last silent port_state+4*v6)  impl (status notsup (hop...) )   hop = (ttl #ip dest rtt_negative)
 type kernScenario struct {
 	N         int    `json:"n"`
 	Proto     string `json:"proto"`
@@ -31,6 +31,7 @@ type kernScenario struct {
 	Silent    int    `json:"silent"`     // router whose ICMP generation is suppressed, 0 = none
 	PortState int    `json:"port_state"` // 0 open, 1 closed, 2 open but SACK disabled
 	Parallel  int    `json:"parallel"`   // run this many copies at once
+	V6        int    `json:"v6"`         // 1: the target is the chain's IPv6 address
 }
 
 func labKern(e labEnv) {
@@ -51,7 +52,7 @@ func labKern(e labEnv) {
 			go func(i int) {
 				defer wg.Done()
 				p := traceroute.TracerouteParams{Hostname: sc.Target, Port: sc.Port, Protocol: sc.Proto, MinTTL: sc.First, MaxTTL: sc.Last, Delay: 20, Timeout: 400 * time.Millisecond,
-					TCPMethod: traceroute.TCPMethod(sc.Method), TracerouteQueries: 1}
+					TCPMethod: traceroute.TCPMethod(sc.Method), TracerouteQueries: 1, WantV6: sc.V6 != 0}
 				var res *result.Results
 				var err error
 				status := 0
@@ -83,7 +84,7 @@ func labKern(e labEnv) {
 		wg.Wait()
 		for i := 0; i < k; i++ {
 			w.put(L(sxInt(17), sxInt(int64(sc.N)), sxInt(int64(protoCode(sc.Proto))), sxInt(int64(methodCode(sc.Method))), sxInt(int64(sc.Port)), sxInt(int64(sc.First)), sxInt(int64(sc.Last)),
-				sxInt(int64(sc.Silent)), sxInt(int64(sc.PortState))), outs[i])
+				sxInt(int64(sc.Silent)), sxInt(int64(sc.PortState+4*sc.V6))), outs[i])
 		}
 	}
 	must(w.close())
